@@ -29,6 +29,9 @@ CHECKS = {
          "Every case in the stated bound is factored, solved and (for histories) refactored by the real public clarabel::qdldl API; each result is judged from the returned L, D, Dinv, perm, inertia and counts against PAP'=LDL' elementwise with a 64*n*eps*|L||D||L'| bound, the regularisation rule, bitwise equality of refactor vs. fresh factorisation, and mandatory errors for every invalid permutation / structure / exactly-zero pivot.",
          "dense reference arithmetic in mc/src/props/c12.rs is trusted; growth is bounded by construction (diagonally dominant or +-1 data); n<=40 random matrices only as a labelled sampling supplement",
          "DESIGN.md §5 C12"),
+ "C20": ("exhaustive enumeration of the planted(+<=1 deviation)/tiny-program families x settings lattice (incl. max_iter cut-offs and both LDL backends) with the real solver printing to a buffer, a stream and a file (and to the real stdout of a child process on a sub-lattice), verbose on and off; byte comparison + full parse of the output against the returned solution and an independently computed header truth",
+         "For every case (3.3e5 in quick, 6 solves each) verbose-off must deliver zero bytes to every target; buffer, stream, file (and stdout) bytes must be identical after masking the one wall-clock field; the table must parse, its iteration column must start at 0, never decrease and end at solution.iterations; the last row and the footer must agree with the returned solution to printed precision; and the configuration header must state the true internal dimensions, nnz, collapsed/reduced cone list, presolve count, backend and settings.",
+         "statuses needing injected faults are covered by the fault-schedule spaces; stdout is compared on a sub-lattice only", "DESIGN.md §5 C20"),
  "C19": ("exhaustive enumeration of round trips (31 problems covering every cone variant, empty and extreme data x presolve-reduction active/inactive x settings override x every settings field changed one (thorough: two) at a time) and exhaustive single-site fault enumeration on saved files (every truncation length, every single-byte deletion, every single-byte substitution from a 16-character menu) against the real save_to_file/load_from_file",
          "Each saved file is parsed independently and compared with the user's originals (exactly with equilibration off, 4 ulp otherwise), loaded settings must equal the saved ones field by field (infinite time_limit included), an override must win, and the loaded solver must reach the same verdict/objective; every one of about 6e4 faulted files per run must yield Err or an internally consistent, usable solver - never a panic or hang.",
          "faults are single-site; a faulted file that is still a well-formed problem is accepted if consistent; solves after a fault are only demanded when the settings are unchanged", "DESIGN.md §5 C19"),
